@@ -559,3 +559,355 @@ def early_return_tree(root):
 
 def sort_methods_tree(root):
     return _rewrite_tree(root, _SortMethods)
+
+
+# ---------------------------------------------------------------------------------------------------------
+# third batch
+# ---------------------------------------------------------------------------------------------------------
+class _AnnotateLocals(ast.NodeTransformer):
+    """x = v  ->  x: 'object' = v   for plain local names inside functions (local annotations are never evaluated)"""
+    count = 0
+
+    def __init__(self):
+        self.depth = 0
+
+    def visit_FunctionDef(self, node):
+        self.depth += 1
+        declared = set()
+        for n in ast.walk(node):
+            if isinstance(n, (ast.Global, ast.Nonlocal)):
+                declared.update(n.names)
+        self.declared = getattr(self, 'declared', set()) | declared
+        self.generic_visit(node)
+        self.depth -= 1
+        return node
+
+    visit_AsyncFunctionDef = visit_FunctionDef
+
+    def visit_ClassDef(self, node):
+        d, self.depth = self.depth, 0
+        self.generic_visit(node)
+        self.depth = d
+        return node
+
+    def visit_Assign(self, node):
+        if self.depth and len(node.targets) == 1 and isinstance(node.targets[0], ast.Name) \
+                and node.targets[0].id not in getattr(self, 'declared', set()):
+            self.count += 1
+            return ast.AnnAssign(target=node.targets[0], annotation=ast.Constant(value='object'), value=node.value, simple=1)
+        return node
+
+
+class _Walrus(ast.NodeTransformer):
+    """x = E; if x ...:   ->   if (x := E) ...:      (x the first thing the test evaluates)"""
+    count = 0
+
+    @staticmethod
+    def _first_name(test):
+        if isinstance(test, ast.Name):
+            return test, 'self'
+        if isinstance(test, ast.UnaryOp) and isinstance(test.op, ast.Not) and isinstance(test.operand, ast.Name):
+            return test.operand, 'operand'
+        if isinstance(test, ast.Compare) and isinstance(test.left, ast.Name):
+            return test.left, 'left'
+        return None, None
+
+    def _block(self, stmts):
+        out = []
+        i = 0
+        while i < len(stmts):
+            a = stmts[i]
+            b = stmts[i + 1] if i + 1 < len(stmts) else None
+            if isinstance(a, ast.Assign) and len(a.targets) == 1 and isinstance(a.targets[0], ast.Name) and isinstance(b, ast.If):
+                name, where = self._first_name(b.test)
+                if name is not None and name.id == a.targets[0].id:
+                    w = ast.NamedExpr(target=ast.Name(id=name.id, ctx=ast.Store()), value=a.value)
+                    if where == 'self':
+                        b.test = w
+                    elif where == 'operand':
+                        b.test.operand = w
+                    else:
+                        b.test.left = w
+                    self.count += 1
+                    out.append(b)
+                    i += 2
+                    continue
+            out.append(a)
+            i += 1
+        return out
+
+    def visit_FunctionDef(self, node):
+        self.generic_visit(node)
+        for n in ast.walk(node):
+            if isinstance(n, ast.ClassDef):
+                continue
+            for field in ('body', 'orelse', 'finalbody'):
+                v = getattr(n, field, None)
+                if isinstance(v, list) and v and isinstance(v[0], ast.stmt) and not isinstance(n, ast.ClassDef):
+                    setattr(n, field, self._block(v))
+        return node
+
+    visit_AsyncFunctionDef = visit_FunctionDef
+
+
+class _Percent2Format(ast.NodeTransformer):
+    """'a%sb%s' % (x, y)  ->  'a{}b{}'.format(x, y)    (only %s, no braces in the literal)"""
+    count = 0
+
+    def visit_BinOp(self, node):
+        self.generic_visit(node)
+        if isinstance(node.op, ast.Mod) and isinstance(node.left, ast.Constant) and isinstance(node.left.value, str) \
+                and isinstance(node.right, ast.Tuple):
+            fmt = node.left.value
+            if '{' in fmt or '}' in fmt or fmt.count('%') != fmt.count('%s') or fmt.count('%s') != len(node.right.elts) \
+                    or any(isinstance(e, ast.Starred) for e in node.right.elts):
+                return node
+            self.count += 1
+            return ast.Call(func=ast.Attribute(value=ast.Constant(value=fmt.replace('%s', '{}')), attr='format', ctx=ast.Load()),
+                            args=list(node.right.elts), keywords=[])
+        return node
+
+
+def annotate_locals_tree(root):
+    return _rewrite_tree(root, _AnnotateLocals)
+
+
+def walrus_tree(root):
+    return _rewrite_tree(root, _Walrus)
+
+
+def percent_to_format_tree(root):
+    return _rewrite_tree(root, _Percent2Format)
+
+
+# ---------------------------------------------------------------------------------------------------------
+# fourth batch
+# ---------------------------------------------------------------------------------------------------------
+class _MergeNestedIf(ast.NodeTransformer):
+    """if a: if b: X   ->   if a and b: X     (neither has an else; the inner if is the whole body)"""
+    count = 0
+
+    def visit_If(self, node):
+        self.generic_visit(node)
+        if not node.orelse and len(node.body) == 1 and isinstance(node.body[0], ast.If) and not node.body[0].orelse:
+            inner = node.body[0]
+            self.count += 1
+            vals = []
+            for t in (node.test, inner.test):
+                if isinstance(t, ast.BoolOp) and isinstance(t.op, ast.And):
+                    vals.extend(t.values)
+                else:
+                    vals.append(t)
+            return ast.If(test=ast.BoolOp(op=ast.And(), values=vals), body=inner.body, orelse=[])
+        return node
+
+
+class _IfExpToIf(ast.NodeTransformer):
+    """x = A if c else B   ->   if c: x = A else: x = B"""
+    count = 0
+
+    def _block(self, stmts):
+        out = []
+        for st in stmts:
+            if isinstance(st, ast.Assign) and isinstance(st.value, ast.IfExp) and len(st.targets) == 1 \
+                    and isinstance(st.targets[0], (ast.Name, ast.Attribute)):
+                self.count += 1
+                import copy
+                t2 = copy.deepcopy(st.targets[0])
+                out.append(ast.If(test=st.value.test,
+                                  body=[ast.Assign(targets=[st.targets[0]], value=st.value.body, lineno=st.lineno)],
+                                  orelse=[ast.Assign(targets=[t2], value=st.value.orelse, lineno=st.lineno)]))
+            else:
+                out.append(st)
+        return out
+
+    def generic_visit(self, node):
+        super().generic_visit(node)
+        if isinstance(node, ast.ClassDef):
+            return node
+        for field in ('body', 'orelse', 'finalbody'):
+            v = getattr(node, field, None)
+            if isinstance(v, list) and v and isinstance(v[0], ast.stmt) and not isinstance(node, ast.Module):
+                setattr(node, field, self._block(v))
+        return node
+
+
+def _pure(e):
+    return all(isinstance(n, (ast.Name, ast.Constant, ast.Attribute, ast.Subscript, ast.BinOp, ast.UnaryOp, ast.Tuple, ast.Load,
+                              ast.operator, ast.unaryop, ast.Slice, ast.Compare, ast.cmpop, ast.BoolOp, ast.boolop))
+               for n in ast.walk(e))
+
+
+def _names_in(e):
+    return {n.id for n in ast.walk(e) if isinstance(n, ast.Name)}
+
+
+class _SplitTupleAssign(ast.NodeTransformer):
+    """a, b = x, y   ->   a = x; b = y     (plain names, right-hand sides do not mention the targets)"""
+    count = 0
+
+    def _block(self, stmts):
+        out = []
+        for st in stmts:
+            if isinstance(st, ast.Assign) and len(st.targets) == 1 and isinstance(st.targets[0], ast.Tuple) \
+                    and isinstance(st.value, ast.Tuple) and len(st.value.elts) == len(st.targets[0].elts) \
+                    and all(isinstance(t, ast.Name) for t in st.targets[0].elts) \
+                    and not any(isinstance(v, ast.Starred) for v in st.value.elts) \
+                    and not ({t.id for t in st.targets[0].elts} & _names_in(st.value)):
+                self.count += 1
+                for t, v in zip(st.targets[0].elts, st.value.elts):
+                    out.append(ast.Assign(targets=[t], value=v, lineno=st.lineno))
+            else:
+                out.append(st)
+        return out
+
+    def generic_visit(self, node):
+        super().generic_visit(node)
+        for field in ('body', 'orelse', 'finalbody'):
+            v = getattr(node, field, None)
+            if isinstance(v, list) and v and isinstance(v[0], ast.stmt) and not isinstance(node, (ast.Module, ast.ClassDef)):
+                setattr(node, field, self._block(v))
+        return node
+
+
+class _SwapIndependent(ast.NodeTransformer):
+    """a = E1; b = E2   ->   b = E2; a = E1    (plain names, side-effect-free right-hand sides, no dependence)"""
+    count = 0
+
+    def _block(self, stmts):
+        out = list(stmts)
+        i = 0
+        while i + 1 < len(out):
+            a, b = out[i], out[i + 1]
+            if all(isinstance(s, ast.Assign) and len(s.targets) == 1 and isinstance(s.targets[0], ast.Name) and _pure(s.value)
+                   for s in (a, b)):
+                ta, tb = a.targets[0].id, b.targets[0].id
+                if ta != tb and tb not in _names_in(a.value) and ta not in _names_in(b.value):
+                    out[i], out[i + 1] = b, a
+                    self.count += 1
+                    i += 2
+                    continue
+            i += 1
+        return out
+
+    def generic_visit(self, node):
+        super().generic_visit(node)
+        for field in ('body', 'orelse', 'finalbody'):
+            v = getattr(node, field, None)
+            if isinstance(v, list) and v and isinstance(v[0], ast.stmt) and not isinstance(node, (ast.Module, ast.ClassDef)):
+                setattr(node, field, self._block(v))
+        return node
+
+
+def merge_nested_if_tree(root):
+    return _rewrite_tree(root, _MergeNestedIf)
+
+
+def ifexp_to_if_tree(root):
+    return _rewrite_tree(root, _IfExpToIf)
+
+
+def split_tuple_assign_tree(root):
+    return _rewrite_tree(root, _SplitTupleAssign)
+
+
+def swap_independent_tree(root):
+    return _rewrite_tree(root, _SwapIndependent)
+
+
+def import_style_tree(root):
+    """from pkg import mod [as x]  ->  import pkg.mod as mod|x     (only when pkg.mod is a module of the package)"""
+    count = 0
+    for dirpath, _, files in os.walk(os.path.join(root, 'parso')):
+        for fn in files:
+            if not fn.endswith('.py'):
+                continue
+            p = os.path.join(dirpath, fn)
+            with open(p, encoding='utf-8') as f:
+                src = f.read()
+            tree = ast.parse(src)
+            new_body = []
+            for st in tree.body:
+                if isinstance(st, ast.ImportFrom) and st.level == 0 and st.module and st.module.startswith('parso'):
+                    keep = []
+                    for al in st.names:
+                        base = os.path.join(root, *(st.module.split('.') + [al.name]))
+                        if os.path.exists(base + '.py') or os.path.isdir(base):
+                            new_body.append(ast.Import(names=[ast.alias(name='%s.%s' % (st.module, al.name), asname=al.asname or al.name)]))
+                            count += 1
+                        else:
+                            keep.append(al)
+                    if keep:
+                        st.names = keep
+                        new_body.append(st)
+                else:
+                    new_body.append(st)
+            tree.body = new_body
+            ast.fix_missing_locations(tree)
+            out = ast.unparse(tree) + '\n'
+            compile(out, p, 'exec')
+            with open(p, 'w', encoding='utf-8') as f:
+                f.write(out)
+    return count
+
+
+class _Delegate(ast.NodeTransformer):
+    """def f(a, b=1): BODY   ->   def f(a, b=1): return f_impl(a, b)  +  def f_impl(a, b=1): BODY
+    (module-level functions and plain methods; decorators stay on the outer function)"""
+    count = 0
+
+    @staticmethod
+    def _simple_args(a):
+        return not a.vararg and not a.kwarg and not a.posonlyargs
+
+    def _split(self, node, in_class, cls_name=''):
+        if node.name.startswith('__') or node.decorator_list or not self._simple_args(node.args):
+            return [node]
+        if any(isinstance(n, ast.Call) and isinstance(n.func, ast.Name) and n.func.id == 'super' and not n.args for n in ast.walk(node)) \
+                and not in_class:
+            return [node]
+        body = node.body
+        doc = []
+        if body and isinstance(body[0], ast.Expr) and isinstance(body[0].value, ast.Constant) and isinstance(body[0].value.value, str):
+            doc, body = body[:1], body[1:]
+        if len(body) < 2:
+            return [node]
+        import copy
+        impl = ast.FunctionDef(name=('_%s_' % cls_name if in_class else '') + node.name + '_impl', args=copy.deepcopy(node.args), body=body, decorator_list=[],
+                               returns=None, type_comment=None, lineno=node.lineno)
+        if hasattr(node, 'type_params'):
+            impl.type_params = []
+        params = [x.arg for x in node.args.args]
+        kwonly = [x.arg for x in node.args.kwonlyargs]
+        if in_class:
+            if not params:
+                return [node]
+            func = ast.Attribute(value=ast.Name(id=params[0], ctx=ast.Load()), attr=impl.name, ctx=ast.Load())
+            args = [ast.Name(id=p, ctx=ast.Load()) for p in params[1:]]
+        else:
+            func = ast.Name(id=impl.name, ctx=ast.Load())
+            args = [ast.Name(id=p, ctx=ast.Load()) for p in params]
+        call = ast.Call(func=func, args=args, keywords=[ast.keyword(arg=k, value=ast.Name(id=k, ctx=ast.Load())) for k in kwonly])
+        node.body = doc + [ast.Return(value=call)]
+        self.count += 1
+        return [node, impl]
+
+    def _process(self, body, in_class, cls_name=''):
+        out = []
+        for st in body:
+            if isinstance(st, ast.FunctionDef):
+                out.extend(self._split(st, in_class, cls_name))
+            elif isinstance(st, ast.ClassDef):
+                st.body = self._process(st.body, True, st.name)
+                out.append(st)
+            else:
+                out.append(st)
+        return out
+
+    def visit_Module(self, node):
+        node.body = self._process(node.body, False)
+        return node
+
+
+def delegate_tree(root):
+    return _rewrite_tree(root, _Delegate)
